@@ -225,7 +225,8 @@ func vfC12(w *vfWorld) {
 					held[ev.Task] = ev.At
 				}
 			}
-			if ev.Name == "SET" && !ev.IsLock && ev.Err == "" {
+			// a write whose reply was lost or timed out after execution took effect all the same
+			if ev.Name == "SET" && !ev.IsLock && (ev.Err == "" || ev.Fault.Kind == vfRFErrAfter || ev.Fault.Kind == vfRFTimeoutDone) {
 				sets = append(sets, ev)
 			}
 		}
